@@ -116,9 +116,13 @@ order, then the trailing request. -/
 def WCtx.finishBatch (c : WCtx) (batch : List WReq) (tail : Option WReq) (ok : Bool) : WCtx :=
   let c1 := { c with w := { c.w with lastSyncFailed := !ok } }
   let c2 := (batch.filterMap WReq.cbId).foldl (fun c i => c.emit (.cb i ok)) c1
+  -- a removal postponed by a failed sync is retried after every later batch: handled like an
+  -- empty `removeChunks` request behind the batch (a no-op while the last sync failed)
   match tail with
+  | some (.appendFile id prevLast) =>
+    ({ c2 with w := { c2.w with files := c2.w.files ++ [FileEnt.mk id prevLast] } }).nonFlush (.removeChunks [])
   | some r => c2.nonFlush r
-  | none => c2.toRecv
+  | none => c2.nonFlush (.removeChunks [])
 
 /-- `sync_all_files`: park at the first `fdatasync`. -/
 def WCtx.startSync (c : WCtx) (batch : List WReq) (tail : Option WReq) : WCtx :=
